@@ -1,5 +1,6 @@
 import Driver.Bep42
 import Driver.Tid
+import Driver.Token
 open Btdht.Driver
 
 /-- Generic loop for a stateful engine: one op per stdin line, one canonical line out. -/
@@ -18,4 +19,5 @@ def main (args : List String) : IO UInt32 := do
   match args with
   | ["bep42"] => loopS stdin stdout (stateless bep42Step) (); return 0
   | ["tid"] => loopS stdin stdout tidStep {}; return 0
+  | ["token"] => loopS stdin stdout tokenStep {}; return 0
   | _ => IO.eprintln "usage: btdht_model <engine>"; return 2
